@@ -56,6 +56,8 @@ def run(ctx):
     d3_two_file_order(ctx, committer)            # D4 shrink/growth order (shared with C17)
     d4_cutpoint(ctx)
     d5_owners(ctx)
+    from .C10 import values_before_index
+    values_before_index(ctx, step, roles['VALUESDIR'], roles['INDICESDIR'], 'D1')   # a rejected item leaves no orphan index row
     arr_appenders = [a for a in appenders if a.cls is not None and a.cls.name == 'Array']
     d3_checker(ctx, ctx.repo.cls('Array'), arr_appenders)
 
